@@ -1,7 +1,7 @@
 (* C05 - Serialize / initialize / deserialize round-trip with exact size accounting. Statements only. *)
 From SF Require Import Base.Prelude Unsized.Types Unsized.Parse Unsized.Machine Unsized.Ops Unsized.Proofs.EncodeParse.
 From SF Require Import Unsized.Proofs.Layout Unsized.Proofs.Init Unsized.Proofs.InitKinds.
-From SF Require Import Unsized.SizedInit Unsized.Proofs.SizedInitProofs.
+From SF Require Import Unsized.SizedInit Unsized.Proofs.SizedInitProofs Unsized.ClientAcct Unsized.Proofs.ClientAcctProofs.
 
 (* serializing produces exactly the announced number of bytes, for every shape and every well-formed value *)
 Theorem C05_encode_size : forall t v, wf t v = true -> zlen (encode t v) = byte_size t v.
@@ -110,3 +110,18 @@ Theorem C05_sized_default_init_writes_the_default :
     firstn (s_size t) after = s_default t /\
     (s_default t <> repeat 0 (s_size t) -> firstn (s_size t) after <> repeat 0 (s_size t)).
 Proof. exact sized_default_init_writes_the_default. Qed.
+
+(* the client-side account helpers: deserialize_account (serialize_account v) = v behind the discriminant ... *)
+Theorem C05_client_roundtrip :
+  forall d bs, zlen bs < 256 ^ 4 -> client_de d (client_ser d bs) = Some bs.
+Proof. exact client_roundtrip. Qed.
+
+(* ... and data whose discriminant prefix differs is rejected, whatever follows - in particular the same value serialized
+   as a sibling account type of the same discriminant width *)
+Theorem C05_client_rejects_other_discriminant :
+  forall d data, firstn (length d) data <> d -> client_de d data = None.
+Proof. exact client_rejects_other_discriminant. Qed.
+
+Theorem C05_client_rejects_sibling_account :
+  forall d d' bs, length d' = length d -> d' <> d -> client_de d (client_ser d' bs) = None.
+Proof. exact client_rejects_sibling_account. Qed.
